@@ -214,7 +214,7 @@ Qed.
 
 Lemma ctr_at_add : forall ctr0 k j, length ctr0 = 16%nat -> 0 <= k -> 1 <= j ->
   ctr_add (ctr_at ctr0 k) j = ctr_at ctr0 (k + j).
-Proof.
+Proof. clear E_len. clear E.
   intros ctr0 k j Hlen Hk Hj. unfold ctr_at.
   destruct (k + j =? 0) eqn:Hkj; [lia|].
   destruct (k =? 0) eqn:Hk0.
@@ -224,7 +224,7 @@ Qed.
 
 Lemma ctr_low_ctr_at : forall ctr0 k, length ctr0 = 16%nat -> 0 <= k ->
   ctr_low ctr0 + k <= 65535 -> ctr_low (ctr_at ctr0 k) = ctr_low ctr0 + k.
-Proof.
+Proof. clear E_len. clear E.
   intros ctr0 k Hlen Hk Hr. unfold ctr_at. destruct (k =? 0) eqn:Hk0.
   - lia.
   - rewrite ctr_low_ctr_add by exact Hlen.
@@ -255,7 +255,7 @@ Qed.
 Lemma ks_blocks_app : forall ctr0 a b k, length ctr0 = 16%nat -> 0 <= k ->
   ks_blocks E (a + b) (ctr_at ctr0 k) =
   ks_blocks E a (ctr_at ctr0 k) ++ ks_blocks E b (ctr_at ctr0 (k + Z.of_nat a)).
-Proof.
+Proof. clear E_len.
   intros ctr0 a b k Hlen. revert k. induction a as [|a IHa]; intros k Hk.
   - cbn [Nat.add ks_blocks app]. replace (k + Z.of_nat 0) with k by lia. reflexivity.
   - cbn [Nat.add ks_blocks app]. rewrite ctr_at_add by (try exact Hlen; lia).
@@ -271,7 +271,7 @@ Qed.
 
 Lemma ks_blocks_last : forall ctr0 nb k d, length ctr0 = 16%nat -> 0 <= k -> (1 <= nb)%nat ->
   last (ks_blocks E nb (ctr_at ctr0 k)) d = E (ctr_at ctr0 (k + Z.of_nat nb - 1)).
-Proof.
+Proof. clear E_len.
   intros ctr0 nb k d Hlen Hk Hnb.
   replace nb with ((nb - 1) + 1)%nat at 1 by lia.
   rewrite ks_blocks_app by assumption. cbn [ks_blocks].
@@ -351,3 +351,537 @@ Proof.
   rewrite slice_firstn_skipn. unfold ctr_keystream. rewrite take_firstn.
   rewrite window_of_prefix by lia. reflexivity.
 Qed.
+
+(* ================================================================== *)
+(* C18.3  one call from a well-formed state is counter mode            *)
+(* ================================================================== *)
+Theorem icm_encrypt_ok : forall c ctr0 pos data,
+  wf c ctr0 pos -> icm_refuses c (lenZ data) = false ->
+  exists c',
+    icm_encrypt E c data =
+      (st_ok, c', xor_bytes data (slice (zn pos) (length data)
+                                        (ctr_keystream ctr0 (zn pos + length data)))) /\
+    wf c' ctr0 (pos + lenZ data) /\ i_off c' = i_off c /\
+    (pos + lenZ data = 0 -> i_buf c' = i_buf c).
+Proof.
+  intros c ctr0 pos data Hwf Href.
+  rewrite icm_encrypt_eq, Href.
+  pose proof Hwf as [Hpos Hlen Hctr Hin Hbl Hbuf].
+  assert (Hzn : zn (lenZ data) = length data) by (unfold zn, lenZ; lia).
+  rewrite Hzn. rewrite take_firstn, drop_skipn.
+  destruct (lenZ data <=? i_in c) eqn:Hsmall.
+  - (* served from the keystream buffer *)
+    eexists. split; [|split; [|split]].
+    + f_equal. f_equal.
+      assert (Hcount : (zn (blocks_of pos) + 0 = (zn pos + length data + 15) / 16)%nat)
+        by (unfold blocks_of, zn, lenZ in *; lia).
+      pose proof (keystream_window c ctr0 pos 0 (length data) Hwf Hcount) as Hw.
+      cbn [ks_blocks concat] in Hw. rewrite app_nil_r in Hw.
+      rewrite slice_firstn_skipn. exact Hw.
+    + constructor; cbn [i_off i_ctr i_buf i_in].
+      * unfold lenZ; lia.
+      * exact Hlen.
+      * rewrite Hctr. f_equal. unfold blocks_of, lenZ in *. lia.
+      * unfold lenZ in *. lia.
+      * exact Hbl.
+      * intros Hp. assert (Hp0 : 0 < pos) by (unfold lenZ in *; lia).
+        rewrite (Hbuf Hp0). do 2 f_equal. unfold blocks_of, lenZ in *. lia.
+    + reflexivity.
+    + reflexivity.
+  - (* rest of the buffer, then new blocks *)
+    set (n := lenZ data) in *.
+    set (nb := (n - i_in c + 15) / 16).
+    assert (Hn : n = Z.of_nat (length data)) by reflexivity.
+    assert (Hnb : 1 <= nb) by (subst nb; lia).
+    assert (Hk : 0 <= blocks_of pos) by (unfold blocks_of; lia).
+    assert (Hk' : blocks_of (pos + n) = blocks_of pos + nb) by (subst nb; unfold blocks_of; lia).
+    eexists. split; [|split; [|split]].
+    + f_equal. f_equal.
+      apply (keystream_window c ctr0 pos (zn nb) (length data) Hwf).
+      unfold zn. unfold blocks_of in *. lia.
+    + constructor; cbn [i_off i_ctr i_buf i_in].
+      * lia.
+      * exact Hlen.
+      * rewrite Hctr, Hk'. apply ctr_at_add; assumption.
+      * lia.
+      * rewrite Hctr. rewrite ks_blocks_last by (try assumption; unfold zn; lia). apply E_len.
+      * intros _. rewrite Hctr. rewrite ks_blocks_last by (try assumption; unfold zn; lia).
+        do 2 f_equal. unfold zn. lia.
+    + reflexivity.
+    + intros H0. lia.
+Qed.
+
+(* ================================================================== *)
+(* C18.5  the terminus check                                           *)
+(* ================================================================== *)
+
+(* refusal: status terminus, state untouched, no output *)
+Theorem icm_encrypt_refused : forall c data,
+  icm_refuses c (lenZ data) = true -> icm_encrypt E c data = (st_terminus, c, []).
+Proof. intros c data Href. rewrite icm_encrypt_eq, Href. reflexivity. Qed.
+
+Theorem icm_encrypt_status : forall c data,
+  fst (fst (icm_encrypt E c data)) = (if icm_refuses c (lenZ data) then st_terminus else st_ok).
+Proof.
+  intros c data. rewrite icm_encrypt_eq.
+  destruct (icm_refuses c (lenZ data)) eqn:Href; [reflexivity|].
+  destruct (lenZ data <=? i_in c) eqn:Hs; reflexivity.
+Qed.
+
+(* size_t arithmetic of the check.  bytes_to_encr - bytes_in_buffer wraps when the
+   call is shorter than the buffered keystream; adding 15 wraps it back below 16 *)
+Lemma new_blocks_wrap : forall n i, 0 <= i <= 15 -> 0 <= n < i ->
+  u64 (u64 (n - i) + 15) / 16 = 0.
+Proof. intros n i Hi Hn. unfold u64. lia. Qed.
+
+Lemma new_blocks_nowrap : forall n i, 0 <= i <= n -> n - i + 15 < 18446744073709551616 ->
+  u64 (u64 (n - i) + 15) / 16 = (n - i + 15) / 16.
+Proof. intros n i Hi Hn. unfold u64. f_equal. lia. Qed.
+
+(* number of new blocks the check computes = growth of the block index *)
+Lemma new_blocks_spec : forall c ctr0 pos n, wf c ctr0 pos ->
+  0 <= n -> n + 15 < 18446744073709551616 ->
+  u64 (u64 (n - i_in c) + 15) / 16 = blocks_of (pos + n) - blocks_of pos.
+Proof. clear E_len.
+  intros c ctr0 pos n [Hpos Hlen Hctr Hin Hbl Hbuf] Hn0 Hn.
+  assert (Hi : 0 <= i_in c <= 15) by lia.
+  destruct (n <? i_in c) eqn:Hlt.
+  - rewrite new_blocks_wrap by lia. unfold blocks_of. lia.
+  - rewrite new_blocks_nowrap by lia. unfold blocks_of. lia.
+Qed.
+
+(* no call has yet gone past block index 65535 *)
+Definition in_range (ctr0 : bytes) (pos : Z) : Prop := ctr_low ctr0 + blocks_of pos <= 65535.
+
+Theorem icm_refuses_iff : forall c ctr0 pos n, wf c ctr0 pos -> in_range ctr0 pos ->
+  0 <= n -> n + 15 < 18446744073709551616 ->
+  (icm_refuses c n = true <-> 65535 < ctr_low ctr0 + blocks_of (pos + n)).
+Proof. clear E_len.
+  intros c ctr0 pos n Hwf Hr Hn0 Hn. unfold icm_refuses.
+  rewrite (new_blocks_spec c ctr0 pos n Hwf Hn0 Hn).
+  destruct Hwf as [Hpos Hlen Hctr Hin Hbl Hbuf].
+  unfold in_range in Hr.
+  assert (Hk : 0 <= blocks_of pos) by (unfold blocks_of; lia).
+  rewrite Hctr, ctr_low_ctr_at by assumption.
+  unfold icm_max_blocks_c. lia.
+Qed.
+
+Corollary icm_accepts_in_range : forall c ctr0 pos n, wf c ctr0 pos -> in_range ctr0 pos ->
+  0 <= n -> n + 15 < 18446744073709551616 ->
+  (icm_refuses c n = false <-> in_range ctr0 (pos + n)).
+Proof. clear E_len.
+  intros c ctr0 pos n Hwf Hr Hn0 Hn.
+  pose proof (icm_refuses_iff c ctr0 pos n Hwf Hr Hn0 Hn) as Hiff.
+  unfold in_range. destruct (icm_refuses c n); split; intros H; try reflexivity; try discriminate.
+  - exfalso. assert (Ht : 65535 < ctr_low ctr0 + blocks_of (pos + n)) by (apply Hiff; reflexivity). lia.
+  - destruct (Z_lt_le_dec 65535 (ctr_low ctr0 + blocks_of (pos + n))) as [Hgt|Hle]; [|exact Hle].
+    apply Hiff in Hgt. discriminate Hgt.
+Qed.
+
+(* a call that fits in the buffered keystream is never refused, although
+   bytes_to_encr - bytes_in_buffer wraps around in size_t when it is strictly shorter *)
+Corollary icm_buffered_never_refused : forall c ctr0 pos n, wf c ctr0 pos -> in_range ctr0 pos ->
+  0 <= n <= i_in c -> icm_refuses c n = false.
+Proof. clear E_len.
+  intros c ctr0 pos n Hwf Hr Hn.
+  pose proof Hwf as [Hpos Hlen Hctr Hin Hbl Hbuf].
+  apply (icm_accepts_in_range c ctr0 pos n Hwf Hr); [lia | lia |].
+  unfold in_range, blocks_of in *. lia.
+Qed.
+
+(* SRTP case: the last two octets of offset and IV are zero, so ctr_low ctr0 = 0.
+   A call is refused exactly when it would need more than 65535 blocks in total,
+   i.e. when the segment would grow beyond 65535 * 16 = 1048560 bytes. *)
+Theorem icm_terminus_srtp : forall c ctr0 pos data, wf c ctr0 pos ->
+  ctr_low ctr0 = 0 -> pos <= 1048560 -> lenZ data + 15 < 18446744073709551616 ->
+  (fst (fst (icm_encrypt E c data)) = st_terminus <-> 1048560 < pos + lenZ data) /\
+  (1048560 < pos + lenZ data -> icm_encrypt E c data = (st_terminus, c, [])).
+Proof. clear E_len.
+  intros c ctr0 pos data Hwf Hl0 Hp Hn.
+  assert (Hn0 : 0 <= lenZ data) by (unfold lenZ; lia).
+  assert (Hr : in_range ctr0 pos) by (unfold in_range, blocks_of; lia).
+  pose proof (icm_refuses_iff c ctr0 pos (lenZ data) Hwf Hr Hn0 Hn) as Hiff.
+  rewrite Hl0 in Hiff.
+  assert (Hb : 65535 < 0 + blocks_of (pos + lenZ data) <-> 1048560 < pos + lenZ data)
+    by (unfold blocks_of; lia).
+  split.
+  - rewrite icm_encrypt_status. destruct (icm_refuses c (lenZ data)) eqn:Href.
+    + split; intros _; [apply Hb, Hiff|]; reflexivity.
+    + split; intros H; [discriminate H|]. apply Hb, Hiff in H. discriminate H.
+  - intros H. apply icm_encrypt_refused. apply Hiff, Hb, H.
+Qed.
+
+(* ================================================================== *)
+(* C18.4  chunking independence                                        *)
+(* ================================================================== *)
+
+(* successive encrypt calls on one cipher state; stops at the first refusal *)
+Fixpoint icm_run (c : icm) (chunks : list bytes) : Z * icm * bytes :=
+  match chunks with
+  | [] => (st_ok, c, [])
+  | d :: rest =>
+    let '(s, c1, o) := icm_encrypt E c d in
+    if s =? st_ok then
+      let '(s2, c2, o2) := icm_run c1 rest in (s2, c2, o ++ o2)
+    else (s, c1, o)
+  end.
+
+Lemma xor_window_app : forall ctr0 p d1 d2, length ctr0 = 16%nat ->
+  xor_bytes d1 (slice p (length d1) (ctr_keystream ctr0 (p + length d1))) ++
+  xor_bytes d2 (slice (p + length d1) (length d2) (ctr_keystream ctr0 (p + length d1 + length d2))) =
+  xor_bytes (d1 ++ d2) (slice p (length (d1 ++ d2)) (ctr_keystream ctr0 (p + length (d1 ++ d2)))).
+Proof.
+  intros ctr0 p d1 d2 Hlen. rewrite app_length.
+  set (n1 := length d1). set (n2 := length d2).
+  replace (p + n1 + n2)%nat with (p + (n1 + n2))%nat by lia.
+  set (K := ctr_keystream ctr0 (p + (n1 + n2))).
+  assert (HK : length K = (p + (n1 + n2))%nat) by (subst K; apply ctr_keystream_length).
+  rewrite <- (ctr_keystream_window ctr0 p n1 (p + (n1 + n2)) Hlen) by lia. fold K.
+  rewrite !slice_firstn_skipn.
+  rewrite (firstn_add _ (skipn p K) n1 n2). rewrite <- skipn_add.
+  rewrite xor_bytes_app; [reflexivity|].
+  rewrite firstn_length, skipn_length. subst n1. lia.
+Qed.
+
+Theorem icm_run_ok : forall chunks c ctr0 pos c' out,
+  wf c ctr0 pos -> icm_run c chunks = (st_ok, c', out) ->
+  out = xor_bytes (concat chunks)
+          (slice (zn pos) (length (concat chunks))
+                 (ctr_keystream ctr0 (zn pos + length (concat chunks)))) /\
+  wf c' ctr0 (pos + lenZ (concat chunks)) /\ i_off c' = i_off c /\
+  (pos + lenZ (concat chunks) = 0 -> i_buf c' = i_buf c).
+Proof.
+  induction chunks as [|d rest IH]; intros c ctr0 pos c' out Hwf Hrun.
+  - cbn [icm_run] in Hrun. inversion Hrun; subst c' out. cbn [concat].
+    replace (pos + lenZ (@nil N)) with pos by (unfold lenZ; cbn [length]; lia).
+    split; [reflexivity|]. split; [exact Hwf|]. split; reflexivity.
+  - cbn [icm_run] in Hrun.
+    destruct (icm_refuses c (lenZ d)) eqn:Href.
+    + rewrite (icm_encrypt_refused c d Href) in Hrun.
+      change (st_terminus =? st_ok) with false in Hrun. cbv iota in Hrun. discriminate Hrun.
+    + destruct (icm_encrypt_ok c ctr0 pos d Hwf Href) as (c1 & Heq & Hwf1 & Hoff1 & Hbuf1).
+      rewrite Heq in Hrun. change (st_ok =? st_ok) with true in Hrun. cbv iota in Hrun.
+      destruct (icm_run c1 rest) as [[s2 c2] o2] eqn:Hrest.
+      inversion Hrun; subst s2 c2 out. clear Hrun.
+      destruct (IH c1 ctr0 (pos + lenZ d) c' o2 Hwf1 Hrest) as (Ho2 & Hwf2 & Hoff2 & Hbuf2).
+      pose proof (wf_pos _ _ _ Hwf) as Hpos. pose proof (wf_ctr0 _ _ _ Hwf) as Hlen.
+      assert (Hz : zn (pos + lenZ d) = (zn pos + length d)%nat) by (unfold zn, lenZ; lia).
+      assert (Hl : pos + lenZ d + lenZ (concat rest) = pos + lenZ (concat (d :: rest)))
+        by (cbn [concat]; unfold lenZ; rewrite app_length; lia).
+      rewrite Hz in Ho2. rewrite Hl in Hwf2, Hbuf2.
+      split; [|split; [|split]].
+      * rewrite Ho2. cbn [concat]. apply xor_window_app. exact Hlen.
+      * exact Hwf2.
+      * congruence.
+      * intros H0. rewrite (Hbuf2 H0). apply Hbuf1. unfold lenZ in *. lia.
+Qed.
+
+Lemma in_range_mono : forall ctr0 p q, p <= q -> in_range ctr0 q -> in_range ctr0 p.
+Proof. clear E_len. clear E. intros ctr0 p q Hpq. unfold in_range, blocks_of. lia. Qed.
+
+(* a run succeeds exactly when the whole segment stays within block index 65535 *)
+Theorem icm_run_status : forall chunks c ctr0 pos,
+  wf c ctr0 pos -> in_range ctr0 pos -> lenZ (concat chunks) + 15 < 18446744073709551616 ->
+  fst (fst (icm_run c chunks)) =
+    (if Z_le_dec (ctr_low ctr0 + blocks_of (pos + lenZ (concat chunks))) 65535
+     then st_ok else st_terminus).
+Proof.
+  induction chunks as [|d rest IH]; intros c ctr0 pos Hwf Hr Hn.
+  - cbn [icm_run concat fst].
+    replace (pos + lenZ (@nil N)) with pos by (unfold lenZ; cbn [length]; lia).
+    destruct (Z_le_dec (ctr_low ctr0 + blocks_of pos) 65535) as [_|Hne]; [reflexivity|].
+    exfalso. apply Hne. exact Hr.
+  - cbn [icm_run].
+    assert (Hsplit : lenZ (concat (d :: rest)) = lenZ d + lenZ (concat rest))
+      by (cbn [concat]; unfold lenZ; rewrite app_length; lia).
+    assert (Hd0 : 0 <= lenZ d) by (unfold lenZ; lia).
+    assert (Hr0 : 0 <= lenZ (concat rest)) by (unfold lenZ; lia).
+    assert (Hdn : lenZ d + 15 < 18446744073709551616) by lia.
+    pose proof (icm_accepts_in_range c ctr0 pos (lenZ d) Hwf Hr Hd0 Hdn) as Hacc.
+    rewrite Hsplit, Z.add_assoc.
+    destruct (icm_refuses c (lenZ d)) eqn:Href.
+    + rewrite (icm_encrypt_refused c d Href).
+      change (st_terminus =? st_ok) with false. cbv iota. cbn [fst].
+      destruct (Z_le_dec (ctr_low ctr0 + blocks_of (pos + lenZ d + lenZ (concat rest))) 65535)
+        as [Hle|_]; [|reflexivity].
+      exfalso. assert (Hf : true = false); [|discriminate Hf].
+      apply Hacc. apply (in_range_mono ctr0 _ (pos + lenZ d + lenZ (concat rest))); [lia|exact Hle].
+    + destruct (icm_encrypt_ok c ctr0 pos d Hwf Href) as (c1 & Heq & Hwf1 & _).
+      rewrite Heq. change (st_ok =? st_ok) with true. cbv iota.
+      assert (Hr1 : in_range ctr0 (pos + lenZ d)) by (apply Hacc; reflexivity).
+      assert (Hn1 : lenZ (concat rest) + 15 < 18446744073709551616) by lia.
+      specialize (IH c1 ctr0 (pos + lenZ d) Hwf1 Hr1 Hn1).
+      destruct (icm_run c1 rest) as [[s2 c2] o2]. cbn [fst] in *. exact IH.
+Qed.
+
+(* a well-formed state is determined by (offset, ctr0, pos) and, at pos = 0, the
+   stale buffer *)
+Lemma wf_unique : forall c1 c2 ctr0 pos, wf c1 ctr0 pos -> wf c2 ctr0 pos ->
+  i_off c1 = i_off c2 -> (pos = 0 -> i_buf c1 = i_buf c2) -> c1 = c2.
+Proof. clear E_len.
+  intros [o1 t1 b1 n1] [o2 t2 b2 n2] ctr0 pos
+         [Hpos _ Hctr1 Hin1 _ Hbuf1] [_ _ Hctr2 Hin2 _ Hbuf2] Hoff Hb0.
+  cbn [i_off i_ctr i_buf i_in] in *. f_equal.
+  - exact Hoff.
+  - congruence.
+  - destruct (Z.eq_dec pos 0) as [H0|Hn0]; [exact (Hb0 H0)|].
+    rewrite Hbuf1, Hbuf2 by lia. reflexivity.
+  - congruence.
+Qed.
+
+(* the chunked run and the single call on the concatenation agree completely
+   (status, final state, output) whenever either of them succeeds *)
+Theorem icm_chunking_independent : forall chunks c ctr0 pos,
+  wf c ctr0 pos -> in_range ctr0 pos -> lenZ (concat chunks) + 15 < 18446744073709551616 ->
+  fst (fst (icm_run c chunks)) = st_ok \/ fst (fst (icm_encrypt E c (concat chunks))) = st_ok ->
+  icm_run c chunks = icm_encrypt E c (concat chunks).
+Proof.
+  intros chunks c ctr0 pos Hwf Hr Hn Hok.
+  assert (Hn0 : 0 <= lenZ (concat chunks)) by (unfold lenZ; lia).
+  pose proof (icm_accepts_in_range c ctr0 pos _ Hwf Hr Hn0 Hn) as Hacc.
+  pose proof (icm_run_status chunks c ctr0 pos Hwf Hr Hn) as Hst.
+  assert (Hfinal : in_range ctr0 (pos + lenZ (concat chunks))).
+  { destruct Hok as [Hok|Hok].
+    - rewrite Hok in Hst.
+      destruct (Z_le_dec (ctr_low ctr0 + blocks_of (pos + lenZ (concat chunks))) 65535) as [Hle|_];
+        [exact Hle | discriminate Hst].
+    - rewrite icm_encrypt_status in Hok. apply Hacc.
+      destruct (icm_refuses c (lenZ (concat chunks))); [discriminate Hok | reflexivity]. }
+  assert (Href : icm_refuses c (lenZ (concat chunks)) = false) by (apply Hacc; exact Hfinal).
+  destruct (icm_encrypt_ok c ctr0 pos _ Hwf Href) as (c1 & Heq & Hwf1 & Hoff1 & Hbuf1).
+  rewrite Heq.
+  destruct (Z_le_dec (ctr_low ctr0 + blocks_of (pos + lenZ (concat chunks))) 65535) as [_|Hne];
+    [|exfalso; apply Hne; exact Hfinal].
+  destruct (icm_run c chunks) as [[s2 c2] o2] eqn:Hrun. cbn [fst] in Hst. subst s2.
+  destruct (icm_run_ok chunks c ctr0 pos c2 o2 Hwf Hrun) as (Ho2 & Hwf2 & Hoff2 & Hbuf2).
+  f_equal; [f_equal|].
+  - apply (wf_unique c2 c1 ctr0 _ Hwf2 Hwf1); [congruence|].
+    intros H0. rewrite (Hbuf2 H0), (Hbuf1 H0). reflexivity.
+  - exact Ho2.
+Qed.
+
+(* ---- starting point: icm_set_iv ---- *)
+Lemma wf_set_iv : forall c iv, length (i_off c) = 16%nat -> length (i_buf c) = 16%nat ->
+  wf (icm_set_iv c iv) (i_ctr (icm_set_iv c iv)) 0.
+Proof. clear E_len.
+  intros c iv Hoff Hbuf. constructor; cbn [icm_set_iv i_off i_ctr i_buf i_in].
+  - lia.
+  - rewrite xor_bytes_length. exact Hoff.
+  - reflexivity.
+  - reflexivity.
+  - exact Hbuf.
+  - intros H. lia.
+Qed.
+
+Lemma icm_init_lengths : forall salt,
+  length (i_off (icm_init salt)) = 16%nat /\ length (i_buf (icm_init salt)) = 16%nat.
+Proof. clear E_len. clear E.
+  intros salt. unfold icm_init. cbn [i_off i_buf]. split.
+  - rewrite app_length, take_firstn, firstn_length, app_length. unfold zeros.
+    rewrite repeat_length. cbn [length]. lia.
+  - unfold zeros. apply repeat_length.
+Qed.
+
+Lemma slice0_keystream : forall ctr0 n, slice 0 n (ctr_keystream ctr0 (0 + n)) = ctr_keystream ctr0 n.
+Proof.
+  intros ctr0 n. rewrite slice_firstn_skipn. cbn [skipn Nat.add].
+  apply firstn_all2. rewrite ctr_keystream_length. lia.
+Qed.
+
+(* C18.4 as stated: right after set_iv, any chunking that is not refused produces the
+   counter-mode encryption of the concatenation *)
+Theorem icm_chunks_after_set_iv : forall c iv chunks c' out,
+  length (i_off c) = 16%nat -> length (i_buf c) = 16%nat ->
+  icm_run (icm_set_iv c iv) chunks = (st_ok, c', out) ->
+  out = xor_bytes (concat chunks)
+          (ctr_keystream (i_ctr (icm_set_iv c iv)) (length (concat chunks))).
+Proof.
+  intros c iv chunks c' out Hoff Hbuf Hrun.
+  destruct (icm_run_ok chunks _ _ 0 c' out (wf_set_iv c iv Hoff Hbuf) Hrun) as (Hout & _).
+  change (zn 0) with O in Hout. rewrite slice0_keystream in Hout. exact Hout.
+Qed.
+
+Theorem icm_oneshot_after_set_iv : forall c iv data,
+  length (i_off c) = 16%nat -> length (i_buf c) = 16%nat ->
+  icm_refuses (icm_set_iv c iv) (lenZ data) = false ->
+  snd (icm_encrypt E (icm_set_iv c iv) data) =
+  xor_bytes data (ctr_keystream (i_ctr (icm_set_iv c iv)) (length data)).
+Proof.
+  intros c iv data Hoff Hbuf Href.
+  destruct (icm_encrypt_ok _ _ 0 data (wf_set_iv c iv Hoff Hbuf) Href) as (c1 & Heq & _).
+  rewrite Heq. cbn [snd]. change (zn 0) with O. rewrite slice0_keystream. reflexivity.
+Qed.
+
+End ICM_PROOFS.
+
+Print Assumptions icm_encrypt_ok.
+Print Assumptions icm_run_ok.
+Print Assumptions icm_run_status.
+Print Assumptions icm_chunking_independent.
+Print Assumptions icm_chunks_after_set_iv.
+Print Assumptions icm_encrypt_refused.
+Print Assumptions icm_refuses_iff.
+Print Assumptions icm_terminus_srtp.
+Print Assumptions new_blocks_wrap.
+Print Assumptions icm_buffered_never_refused.
+
+(* ================================================================== *)
+(* SRTP use: offset = salt || 00 00, so the block index starts at the  *)
+(* last two octets of the IV (zero for every SRTP/SRTCP IV)            *)
+(* ================================================================== *)
+Lemma ctr_low_set_iv_init : forall salt iv,
+  ctr_low (i_ctr (icm_set_iv (icm_init salt) iv)) = be16 (take 16 (iv ++ zeros 16)) 14.
+Proof.
+  intros salt iv. cbn [icm_set_iv icm_init i_off i_ctr].
+  set (A := take 14 (salt ++ zeros 14)). set (IV := take 16 (iv ++ zeros 16)).
+  assert (HA : length A = 14%nat).
+  { subst A. rewrite take_firstn, firstn_length, app_length. unfold zeros. rewrite repeat_length. lia. }
+  assert (HIV : length IV = 16%nat).
+  { subst IV. rewrite take_firstn, firstn_length, app_length. unfold zeros. rewrite repeat_length. lia. }
+  unfold ctr_low, be16. rewrite !slice_firstn_skipn.
+  rewrite <- (firstn_skipn 14 IV) at 1.
+  rewrite xor_bytes_app by (rewrite firstn_length; lia).
+  replace 14%nat with (length (xor_bytes A (firstn 14 IV)) + 0)%nat at 1
+    by (rewrite xor_bytes_length; lia).
+  rewrite skipn_app_ge. rewrite skipn_O.
+  assert (HT : length (skipn 14 IV) = 2%nat) by (rewrite skipn_length; lia).
+  destruct (skipn 14 IV) as [|a [|b [|x T]]]; try discriminate HT.
+  cbn [xor_bytes]. rewrite !N.lxor_0_l. reflexivity.
+Qed.
+
+(* ================================================================== *)
+(* instance: AES                                                       *)
+(* ================================================================== *)
+Theorem aes_icm_encrypt_ok : forall rks c ctr0 pos data,
+  wf (aes_encrypt_rk rks) c ctr0 pos -> icm_refuses c (lenZ data) = false ->
+  exists c',
+    icm_encrypt (aes_encrypt_rk rks) c data =
+      (st_ok, c', xor_bytes data (slice (zn pos) (length data)
+                   (ctr_keystream (aes_encrypt_rk rks) ctr0 (zn pos + length data)))) /\
+    wf (aes_encrypt_rk rks) c' ctr0 (pos + lenZ data) /\ i_off c' = i_off c /\
+    (pos + lenZ data = 0 -> i_buf c' = i_buf c).
+Proof. intros rks. apply icm_encrypt_ok. apply aes_encrypt_rk_length. Qed.
+
+Theorem aes_icm_chunking_independent : forall rks chunks c ctr0 pos,
+  wf (aes_encrypt_rk rks) c ctr0 pos -> in_range ctr0 pos ->
+  lenZ (concat chunks) + 15 < 18446744073709551616 ->
+  fst (fst (icm_run (aes_encrypt_rk rks) c chunks)) = st_ok \/
+  fst (fst (icm_encrypt (aes_encrypt_rk rks) c (concat chunks))) = st_ok ->
+  icm_run (aes_encrypt_rk rks) c chunks = icm_encrypt (aes_encrypt_rk rks) c (concat chunks).
+Proof. intros rks. apply icm_chunking_independent. apply aes_encrypt_rk_length. Qed.
+
+Theorem aes_icm_terminus_srtp : forall rks c ctr0 pos data,
+  wf (aes_encrypt_rk rks) c ctr0 pos ->
+  ctr_low ctr0 = 0 -> pos <= 1048560 -> lenZ data + 15 < 18446744073709551616 ->
+  (fst (fst (icm_encrypt (aes_encrypt_rk rks) c data)) = st_terminus <-> 1048560 < pos + lenZ data) /\
+  (1048560 < pos + lenZ data -> icm_encrypt (aes_encrypt_rk rks) c data = (st_terminus, c, [])).
+Proof. intros rks. apply icm_terminus_srtp. Qed.
+
+(* the cipher object srtp.c uses: srtp_cipher_set_iv followed by one srtp_cipher_encrypt *)
+Theorem cipher_encrypt_after_start : forall k iv data,
+  is_icm_alg (ck_alg k) = true ->
+  icm_refuses (icm_set_iv (icm_init (ck_salt k)) iv) (lenZ data) = false ->
+  exists c',
+    cipher_encrypt (cipher_start k iv) data =
+      (st_ok, CSIcm (ck_rks k) c',
+       xor_bytes data (ctr_keystream (aes_encrypt_rk (ck_rks k))
+                         (i_ctr (icm_set_iv (icm_init (ck_salt k)) iv)) (length data))).
+Proof.
+  intros k iv data Halg Href. unfold cipher_start. rewrite Halg. cbn [cipher_encrypt].
+  destruct (icm_init_lengths (ck_salt k)) as [Hoff Hbuf].
+  pose proof (wf_set_iv (aes_encrypt_rk (ck_rks k)) (icm_init (ck_salt k)) iv Hoff Hbuf) as Hwf.
+  destruct (icm_encrypt_ok _ (aes_encrypt_rk_length (ck_rks k)) _ _ 0 data Hwf Href)
+    as (c1 & Heq & _).
+  rewrite Heq. exists c1. change (zn 0) with O.
+  rewrite slice0_keystream by apply aes_encrypt_rk_length. reflexivity.
+Qed.
+
+Print Assumptions aes_icm_encrypt_ok.
+Print Assumptions aes_icm_chunking_independent.
+Print Assumptions aes_icm_terminus_srtp.
+Print Assumptions cipher_encrypt_after_start.
+
+(* ================================================================== *)
+(* non-vacuity                                                         *)
+(* ================================================================== *)
+Definition toyE (b : bytes) : bytes := map (N.lxor 0xA5) (take 16 (b ++ zeros 16)).
+
+Lemma toyE_len : forall b, length (toyE b) = 16%nat.
+Proof.
+  intros b. unfold toyE. rewrite map_length, take_firstn, firstn_length, app_length.
+  unfold zeros. rewrite repeat_length. lia.
+Qed.
+
+Definition iota (n : nat) (s : N) : bytes := map (fun i => (N.of_nat i * 7 + s) mod 256)%N (seq 0 n).
+Definition ex_salt : bytes := iota 14 3.
+Definition ex_iv (lo : N) : bytes := iota 14 101 ++ be_bytes 2 lo.
+Definition ex_c0 (lo : N) : icm := icm_set_iv (icm_init ex_salt) (ex_iv lo).
+Definition ex_data : bytes := iota 40 17.
+
+(* the start state is well-formed, with block index = last two IV octets *)
+Example ex_wf : forall lo, wf toyE (ex_c0 lo) (i_ctr (ex_c0 lo)) 0.
+Proof.
+  intros lo. apply wf_set_iv; apply (icm_init_lengths ex_salt).
+Qed.
+Example ex_ctr_low0 : ctr_low (i_ctr (ex_c0 0)) = 0.
+Proof. vm_compute. reflexivity. Qed.
+
+(* 40 bytes in chunks of 3, 13, 1, 23 = one call on 40 bytes = counter mode *)
+Example ex_chunks :
+  icm_run toyE (ex_c0 0) [slice 0 3 ex_data; slice 3 13 ex_data; slice 16 1 ex_data; slice 17 23 ex_data]
+  = icm_encrypt toyE (ex_c0 0) ex_data.
+Proof. vm_compute. reflexivity. Qed.
+
+Example ex_oneshot :
+  icm_encrypt toyE (ex_c0 0) ex_data =
+  (st_ok,
+   {| i_off := i_off (ex_c0 0); i_ctr := ctr_add (i_ctr (ex_c0 0)) 3;
+      i_buf := toyE (ctr_add (i_ctr (ex_c0 0)) 2); i_in := 8 |},
+   xor_bytes ex_data (ctr_keystream toyE (i_ctr (ex_c0 0)) 40)).
+Proof. vm_compute. reflexivity. Qed.
+
+(* the output is not trivially the input, and chunk outputs are not all empty *)
+Example ex_nontrivial : snd (icm_encrypt toyE (ex_c0 0) ex_data) <> ex_data.
+Proof. vm_compute. intros H. discriminate H. Qed.
+
+(* other splittings, including empty chunks and a 16-aligned one *)
+Example ex_chunks2 :
+  icm_run toyE (ex_c0 0) [[]; slice 0 16 ex_data; []; slice 16 16 ex_data; slice 32 8 ex_data]
+  = icm_encrypt toyE (ex_c0 0) ex_data.
+Proof. vm_compute. reflexivity. Qed.
+
+Example ex_chunks_bytewise :
+  icm_run toyE (ex_c0 0) (map (fun b => [b]) ex_data) = icm_encrypt toyE (ex_c0 0) ex_data.
+Proof. vm_compute. reflexivity. Qed.
+
+(* terminus, with the block index started at 65534 through the IV *)
+Example ex_term_16_ok : fst (fst (icm_encrypt toyE (ex_c0 65534) (iota 16 0))) = st_ok.
+Proof. vm_compute. reflexivity. Qed.
+Example ex_term_17_refused :
+  icm_encrypt toyE (ex_c0 65534) (iota 17 0) = (st_terminus, ex_c0 65534, []).
+Proof. vm_compute. reflexivity. Qed.
+(* 3 bytes consume block 65534 (index becomes 65535, 13 bytes buffered); a 1-byte call
+   is then served from the buffer although bytes_to_encr - bytes_in_buffer wraps;
+   13 more bytes are still fine, 14 are refused and leave the state alone *)
+Example ex_term_buffered :
+  let c1 := snd (fst (icm_encrypt toyE (ex_c0 65534) (iota 3 0))) in
+  ctr_low (i_ctr c1) = 65535 /\ i_in c1 = 13 /\
+  icm_refuses c1 1 = false /\ icm_refuses c1 13 = false /\ icm_refuses c1 14 = true /\
+  icm_encrypt toyE c1 (iota 14 0) = (st_terminus, c1, []) /\
+  icm_run toyE (ex_c0 65534) [iota 3 0; iota 13 9] =
+  icm_encrypt toyE (ex_c0 65534) (iota 3 0 ++ iota 13 9).
+Proof. vm_compute. repeat split; reflexivity. Qed.
+(* a refused chunk in the middle: earlier output is kept, state stays at the refusal point *)
+Example ex_term_run :
+  icm_run toyE (ex_c0 65534) [iota 3 0; iota 14 0; iota 1 0] =
+  (st_terminus, snd (fst (icm_encrypt toyE (ex_c0 65534) (iota 3 0))),
+   snd (icm_encrypt toyE (ex_c0 65534) (iota 3 0))).
+Proof. vm_compute. reflexivity. Qed.
+
+(* the block counter is 16 bits wide with no carry into octet 13 *)
+Example ex_ctr_wrap :
+  ctr_add (zeros 13 ++ [7; 255; 255]%N) 1 = zeros 13 ++ [7; 0; 0]%N.
+Proof. vm_compute. reflexivity. Qed.
+(* why wf uses ctr_at: the model does not force list elements to be octets *)
+Example ex_ctr_add_0_nonoctet : ctr_add (repeat 300%N 16) 0 <> repeat 300%N 16.
+Proof. vm_compute. intros H. discriminate H. Qed.
